@@ -168,9 +168,9 @@ func withVals(t *rapid.T, types []spec.T, shape []string) UIn {
 func genLists(capsule, allowDyn bool) func(t *rapid.T) UIn {
 	return func(t *rapid.T) UIn {
 		dyn := allowDyn && rapid.SampledFrom([]bool{false, false, false, true}).Draw(t, "dynamic")
-		base := gen.Type(gen.TypeOpts{Depth: 2, Dynamic: dyn, Capsule: capsule}).Draw(t, "base")
+		base := gen.Type(gen.TypeOpts{Depth: 2, Dynamic: dyn, Capsule: capsule, CapsuleOps: capsule}).Draw(t, "base")
 		n := rapid.SampledFrom([]int{2, 3, 2, 4, 1}).Draw(t, "n")
-		eo := convgen.Opts{Type: gen.TypeOpts{Depth: 2, Dynamic: dyn, Capsule: capsule, Long: 12}, NoOptional: true, NoDynamic: !dyn, MaxEdits: 2}
+		eo := convgen.Opts{Type: gen.TypeOpts{Depth: 2, Dynamic: dyn, Capsule: capsule, CapsuleOps: capsule, Long: 12}, NoOptional: true, NoDynamic: !dyn, MaxEdits: 2}
 		var types []spec.T
 		var shape []string
 		for i := 0; i < n; i++ {
@@ -179,7 +179,7 @@ func genLists(capsule, allowDyn bool) func(t *rapid.T) UIn {
 				types = append(types, clone(base))
 				shape = append(shape, "base")
 			case "unrelated":
-				types = append(types, gen.Type(gen.TypeOpts{Depth: 1, Dynamic: dyn, Capsule: capsule}).Draw(t, "unrelated"))
+				types = append(types, gen.Type(gen.TypeOpts{Depth: 1, Dynamic: dyn, Capsule: capsule, CapsuleOps: capsule}).Draw(t, "unrelated"))
 				shape = append(shape, "unrelated")
 			default:
 				v, labels := convgen.EditType(t, base, nil, eo)
@@ -267,6 +267,11 @@ func genMixed(t *rapid.T) UIn {
 func genMixedFree(t *rapid.T) UIn {
 	if rapid.IntRange(0, 3).Draw(t, "composed") == 0 {
 		return genComposed(t)
+	}
+	if rapid.IntRange(0, 3).Draw(t, "capsules") == 2 {
+		// capsule types among the inputs, one of them with conversion operations
+		// of its own (which are offered in unsafe mode only)
+		return genLists(true, false)(t)
 	}
 	return genLists(false, false)(t)
 }
